@@ -295,14 +295,36 @@ def main(argv=None) -> int:
         print(f'CHECKER-ERROR: no function under contract serves property {pid} (zero obligations)')
         return 3
     results = run_all(targets, a.jobs)
-    return report(pid, a, results, seed, time.time() - t0, cts)
+    standins = run_standins(pid)
+    return report(pid, a, results, seed, time.time() - t0, cts, standins)
+
+
+def run_standins(pid: str) -> List[Dict[str, Any]]:
+    """bounded stand-ins for ASSUMED clauses: they can find violations, they never count as proof"""
+    import importlib
+    out = []
+    for f in sorted(glob.glob(os.path.join(HERE, 'standins', '*.py'))):
+        n = os.path.basename(f)[:-3]
+        if n == '__init__':
+            continue
+        try:
+            m = importlib.import_module(f'standins.{n}')
+            if pid != 'all' and pid not in getattr(m, 'PROPS', []):
+                continue
+            t = time.time()
+            cases, viol = m.run()
+            out.append({'name': m.NAME, 'bound': m.BOUND, 'cases': cases, 'violations': viol, 'labelled': 'bounded',
+                        'wall_s': round(time.time() - t, 2)})
+        except Exception:
+            out.append({'name': n, 'error': traceback.format_exc(), 'violations': [], 'cases': 0, 'labelled': 'bounded'})
+    return out
 
 
 def relevant(ob: Dict[str, Any], pid: str) -> bool:
     return pid == 'all' or pid in ob['props']
 
 
-def report(pid: str, a, results: List[Dict[str, Any]], seed: int, wall: float, cts) -> int:
+def report(pid: str, a, results: List[Dict[str, Any]], seed: int, wall: float, cts, standins=()) -> int:
     os.makedirs(os.path.join(HERE, 'replays'), exist_ok=True)
     os.makedirs(os.path.join(HERE, 'evidence'), exist_ok=True)
     n_ob = n_dis = 0
@@ -368,6 +390,18 @@ def report(pid: str, a, results: List[Dict[str, Any]], seed: int, wall: float, c
         print(f"    inputs: {rep.get('inputs')}")
         print(f"    native: {rep.get('status')} {rep.get('outcome')} {rep.get('violations')} {str(rep.get('detail'))[-300:]}")
         rc = 1
+    for sd in standins:
+        if sd.get('error'):
+            errors.append(f"stand-in {sd['name']}: {sd['error'][-300:]}")
+        for i, vl in enumerate(sd['violations']):
+            h = hashlib.sha1((sd['name'] + json.dumps(vl, sort_keys=True, default=str)).encode()).hexdigest()[:10]
+            path = os.path.join(HERE, 'replays', f'{pid}-standin-{h}.json')
+            with open(path, 'w') as fh:
+                json.dump({'property': pid, 'standin': sd['name'], 'bound': sd['bound'], 'function': sd['name'],
+                           'failing_input': vl}, fh, indent=1, default=str)
+            print(f"  bounded stand-in {sd['name']} found a failing input: {json.dumps(vl, default=str)[:300]}")
+            lines.append(f'VIOLATION property={pid} replay={path}')
+            rc = 1
     for u in undecided:
         print(f'UNDECIDED {u}')
     for e in errors:
@@ -390,12 +424,14 @@ def report(pid: str, a, results: List[Dict[str, Any]], seed: int, wall: float, c
             'paths_cross_checked_against_cpython': cross_checked,
             'cross_check_agreements': cross_agree,
             'undecided': undecided,
+            'bounded_standins': [{k: v for k, v in sd.items() if k != 'violations'} | {'violations': len(sd['violations'])}
+                                 for sd in standins],
             'samples': samples,
             'exit_code': rc,
         },
         'assumptions': assumed_used + GLOBAL_ASSUMPTIONS,
         'wall_s': round(wall, 2),
-        'violations': len(violations),
+        'violations': len(violations) + sum(len(sd['violations']) for sd in standins),
     }
     if not a.no_evidence and pid != 'all':
         with open(os.path.join(HERE, 'evidence', f'{pid}.json'), 'w') as fh:
